@@ -20,7 +20,7 @@ for pid in sorted(ENTRIES):
         engine="coq-model+correspondence",
         level_claimed=dict(category=e.get("category", "proof"), text=e["text"], design_ref=e.get("design_ref", "DESIGN.md 5 " + pid)),
         level_note=e["note"],
-        technique=e.get("technique", "machine-checked proof in Coq 8.16 of a hand-written Gallina model + differential correspondence of the extracted model against the implementation"),
+        technique=e.get("technique", "machine-checked proof in Coq 8.16 about a Gallina model that is tied to /repo on every run twice: whole source functions re-translated to Gallina (harness/py2gal.py) and proved equal to the model (C??_model_is_source*), and differential correspondence of the extracted model against the running implementation"),
     ))
 m = dict(
     version=1,
